@@ -287,16 +287,23 @@ def _r1(ctx):
         return
     x, e, guards = terms[0]
     natom = ("call", ("attr", ("attr", svar, "element_count"), "get"), (FIRST_KEY(evar),), ())
+    table = ("attr", svar, "element_count")
+    # the count of this element in this species, however it is looked up: T.get(e) | T.get(e, 0) | T[e]
+    counts = (natom, ("call", ("attr", table, "get"), (FIRST_KEY(evar), ("const", 0)), ()), ("item", table, FIRST_KEY(evar)))
+    # ... and "the species contains the element", however it is asked: the count itself | count > 0 | count != 0 | e in T
+    present = set(counts) | {("cmp", c, ((op, ("const", 0)),)) for c in counts for op in ("gt", "ne")} | {("cmp", FIRST_KEY(evar), (("in", table),))}
     got = J.str_pieces(e)
     ab = [("lit", "*y[IDX_"), ("val", ("attr", svar, "alias")), ("lit", "] + ")]
-    ok = len(got) == 4 and got[0][0] in ("fmt", "val") and got[0][-1] == natom and got[1:] == ab \
+    ok = len(got) == 4 and got[0][0] in ("fmt", "val") and got[0][-1] in counts and got[1:] == ab \
         and (got[0][0] == "val" or re.fullmatch(r"\.\d+[fe]|[eg]", got[0][1]) is not None)
     ctx.check(ok, "R1", f"{fn}:term", (PHYS, x[2]),
               "each term is <count of this element in this species> * <this species' abundance> + ",
               expected=f"format({J.show(natom)}) ~ '*y[IDX_' ~ {J.show(svar)}.alias ~ '] + '",
               found=" ~ ".join(repr(p[1]) if p[0] == "lit" else J.show(p[-1]) for p in got))
     tests = loop_filter + [(g[0], J.subst(J.inline_macros(tree, PHYS, g[1]), g[2])) for g in guards]
-    gok = bool(tests) and all(t == ("if+", natom) for t in tests)
+    def conj(t):
+        return conj(t[1]) + conj(t[2]) if t[0] == "and" else [t]          # `if a and b` is `if a` + `if b`
+    gok = bool(tests) and all(k == "if+" and all(c in present for c in conj(t)) for k, t in tests)
     ctx.check(gok, "R1", f"{fn}:term-guard", (PHYS, x[2]), "a term is skipped only when the count is zero/absent",
               found="; ".join(("" if k == "if+" else "not ") + J.show(t) for k, t in tests))
 
@@ -499,5 +506,8 @@ BENIGN = [
     {"name": "eq-grain-helper-predicate", "edits": [
         {"file": SPECIES, "old": "                or (\n                    self.is_grain\n                    and o.is_grain\n                    and self.grain_group == o.grain_group\n                    and self.charge == o.charge\n                )\n", "new": "                or self._same_grain(o)\n"},
         {"file": SPECIES, "old": "    def __hash__(self) -> int:\n", "new": "    def _same_grain(self, o):\n        return self.is_grain and o.is_grain and self.grain_group == o.grain_group and self.charge == o.charge\n\n    def __hash__(self) -> int:\n"}]},
+    {"name": "term-guard-membership", "edits": [
+        {"file": PHYS, "old": "{% set natom = spec.element_count.get(elemname) -%}", "new": "{% set natom = spec.element_count.get(elemname, 0) -%}"},
+        {"file": PHYS, "old": "               {% if natom -%}\n", "new": "               {% if elemname in spec.element_count and natom > 0 -%}\n"}]},
     {"name": "eq-disjuncts-reordered", "file": SPECIES, "old": "                (self.is_electron and o.is_electron)\n                or (", "new": "                self.name == o.name\n                or (self.is_electron and o.is_electron)\n                or ("},
 ]
